@@ -185,6 +185,98 @@ theorem C05_publisher_enabled (s : State) (c : CId) (o : Outcome) (hp : (s.cs c)
     (hr : (s.loops (s.cs c).loop).isRunning = true) (hl : s.lock = none) : (stepCaller s c).isSome = true := by
   simp [stepCaller, hp, hr, hl]
 
+/-- **Nobody is ever stuck.**  In every reachable state, every caller that has called and not
+finished, on a loop that is running, can make progress: its own next step is enabled, or the
+invocation it awaits can end (the environment's move: with a value, an exception, or - always
+possible - a cancellation), or it is waiting for an event and can be woken (by the event, by the 60 s
+safety timer, by a refusal: the `wake` label), or it wants the lock and the lock's holder - who is
+never suspended while holding it - can take *its* next step.  Together with the facts that every
+step moves a caller forward along its program-counter path and that a woken waiter either finds the
+value, finds a live owner to wait for again, or takes the key over (`C01_takeover_only_from_dead`),
+this is the logic half of "every call terminates": the protocol has no state in which a call can only
+sit.  (That the scheduler lets the enabled steps happen - fairness - and that the safety timer is 60 s
+are the runtime's part, explored by the differential.) -/
+theorem C05_never_stuck (ls : List Label) (s : State) (hs : accepts init ls = some s) (c : CId)
+    (hrun : (s.loops (s.cs c).loop).isRunning = true) (hidle : (s.cs c).pc ≠ .idle)
+    (hdone : ∀ o, (s.cs c).pc ≠ .done o) :
+    (stepCaller s c).isSome = true ∨ (step s (.iend c .cancelled)).isSome = true ∨ (step s (.wake c)).isSome = true ∨
+    (∃ h, s.lock = some h ∧ h ≠ c ∧ (stepCaller s h).isSome = true) := by
+  have blocked : ∀ (own : s.lock ≠ some c), s.lock.isSome = true →
+      ∃ h, s.lock = some h ∧ h ≠ c ∧ (stepCaller s h).isSome = true := by
+    intro own hl
+    cases hlk : s.lock with
+    | none => rw [hlk] at hl; cases hl
+    | some h =>
+      refine ⟨h, rfl, ?_, C05_lock_holder_enabled ls s hs h hlk⟩
+      intro e; subst e; exact own hlk
+  have hinv := inv_reachable ls init s inv_init hs
+  cases hp : (s.cs c).pc with
+  | idle => exact absurd hp hidle
+  | done o => exact absurd hp (hdone o)
+  | probe1 => left; simp only [stepCaller, hrun, hp]; cases s.cache (s.cs c).key <;> simp
+  | lockAcq =>
+    by_cases hl : s.lock.isSome = true
+    · right; right; right
+      refine blocked ?_ hl
+      intro e
+      have := (hinv.lockIff c).mp e
+      rw [hp] at this; cases this
+    · left; simp [stepCaller, hrun, hp, hl]
+  | probe2 => left; simp only [stepCaller, hrun, hp]; cases s.cache (s.cs c).key <;> simp
+  | chk => left; simp only [stepCaller, hrun, hp]; cases s.marker (s.cs c).key <;> simp
+  | chkLoop => left; simp [stepCaller, hrun, hp]
+  | put => left; simp [stepCaller, hrun, hp]
+  | relOwn => left; simp [stepCaller, hrun, hp]
+  | relWait => left; simp [stepCaller, hrun, hp]
+  | invoke => left; simp [stepCaller, hrun, hp]
+  | awaiting => right; left; simp [step, hp, hrun]
+  | store v => left; simp [stepCaller, hrun, hp]
+  | finAcq o =>
+    by_cases hl : s.lock.isSome = true
+    · right; right; right
+      refine blocked ?_ hl
+      intro e
+      have := (hinv.lockIff c).mp e
+      rw [hp] at this; cases this
+    · left; simp [stepCaller, hrun, hp, hl]
+  | finSet o => left; simp [stepCaller, hrun, hp]
+  | finDel o => left; simp [stepCaller, hrun, hp]
+  | finRel o => left; simp [stepCaller, hrun, hp]
+  | waiting => right; right; left; simp [step, hp, hrun]
+
+
+/-- how far a call is from its end along the program-counter path (a wake-up starts the path again) -/
+def Pc.togo : Pc → Nat
+  | .probe1 => 17 | .lockAcq => 16 | .probe2 => 15 | .chk => 14 | .chkLoop => 13 | .put => 12
+  | .relOwn => 11 | .relWait => 11 | .invoke => 10 | .awaiting => 9 | .store _ => 8 | .finAcq _ => 7
+  | .finSet _ => 6 | .finDel _ => 5 | .finRel _ => 4 | .waiting => 3 | .done _ => 0 | .idle => 18
+
+/-- **Every move of a call brings it closer to its end**: a step of the caller, and the end of the
+invocation it awaits, strictly decrease `togo`.  Only a wake-up (`waiting → probe1`) sends a call
+round again - and it waits again only for a *live* owner's event (`C05_no_lost_wakeup`,
+`C01_takeover_only_from_dead`): so between two waits a call makes at most 17 moves, none of which can
+be disabled for ever (`C05_never_stuck`). -/
+theorem C05_moves_make_progress (s s' : State) (c : CId) :
+    (stepCaller s c = some s' → (s'.cs c).pc.togo < (s.cs c).pc.togo) ∧
+    (∀ o, step s (.iend c o) = some s' → (s'.cs c).pc.togo < (s.cs c).pc.togo) := by
+  constructor
+  · intro h
+    unfold stepCaller at h
+    simp only [] at h
+    split at h
+    · cases h
+    · cases hp : (s.cs c).pc <;> simp only [hp] at h
+      all_goals (try (cases h; done))
+      all_goals (try split at h)
+      all_goals (try (cases h; done))
+      all_goals (try (simp only [Option.some.injEq] at h; subst h; simp [State.setPc, upd, Pc.togo]))
+  · intro o h
+    simp only [step] at h
+    split at h
+    · rename_i hc
+      cases o <;> simp only [Option.some.injEq] at h <;> subst h <;> simp [State.setPc, upd, Pc.togo, hc.1]
+    · cases h
+
 /-- When the owner publishes (`event.set()`), the event the waiters captured is the one it sets:
 a waiter that captured the owner's marker waits on the owner's event. -/
 theorem C05_waits_on_owners_event (ls : List Label) (s : State) (hs : accepts init ls = some s) (c : CId)
